@@ -25,6 +25,12 @@
 
 typedef long long h4v_i64;
 #define BSW_BUF 4096 /* == BITBUF_SIZE, checked in every harness */
+/* -DBSW_ALLOC=n (bounded stand-in): the buffer OBJECT has only n bytes, so every byte the function touches must
+   lie within the first n bytes of the buffered block (any other access fails cbmc's pointer check, it is not
+   assumed away); bytez == bytea + BITBUF_SIZE stays what it is, arithmetically.  Default: the real size. */
+#ifndef BSW_ALLOC
+#define BSW_ALLOC BSW_BUF
+#endif
 
 /* ------------------------------- ghost state ------------------------------- */
 struct bsw_ghost_const { /* never written by stubs or code */
@@ -94,8 +100,12 @@ Hwrite(int32 access_id, int32 length, const void *data)
         G.io_failed = 1;
         return FAIL;
     }
-    if (GC.b >= G.pos && GC.b - G.pos < length)
+    if (GC.b >= G.pos && GC.b - G.pos < length) {
+#if BSW_ALLOC < BSW_BUF
+        H4V_CHECK(GC.b - G.pos < BSW_ALLOC - (p - GC.buf), "bounded stand-in: the ghost byte lies in the allocated part of the buffer");
+#endif
         G.bdisk = p[GC.b - G.pos];
+    }
     G.wr_pos = G.pos;
     G.wr_len = length;
     G.nwrite++;
@@ -125,12 +135,13 @@ Hread(int32 access_id, int32 length, void *data)
     if (!(p == GC.buf && length <= BSW_BUF))
         return FAIL;
     if (length > 0) {
+        int32 hl = length < BSW_ALLOC ? length : BSW_ALLOC;
 #if defined(H4V_CBMC)
-        __CPROVER_havoc_slice(p, (size_t)length);
+        __CPROVER_havoc_slice(p, (size_t)hl);
 #else
-        memset(p, 0xa5, (size_t)length);
+        memset(p, 0xa5, (size_t)hl);
 #endif
-        if (GC.b >= G.pos && GC.b - G.pos < length)
+        if (GC.b >= G.pos && GC.b - G.pos < hl)
             p[GC.b - G.pos] = (uint8)G.bdisk;
     }
     G.rd_pos = G.pos;
@@ -200,12 +211,37 @@ Hread(int32 access_id, int32 length, void *data)
 #define SEEK_BADARGS(byte_offset, bit_offset, maxo) ((byte_offset) < 0 || (bit_offset) < 0 || (bit_offset) > 7 || (byte_offset) > (maxo))
 
 /* -------------------------------- contracts -------------------------------- */
+/* sub-domains of Hbitseek (their union is the whole domain of the contract); the mode disjunct of the requires
+   is selected with the sub-domain: with the disjunction `write-mode record || read-mode record` in ONE requires
+   cbmc's symbolic execution alone needs > 60 s */
+#define SEEK_DOM_W_INBLOCK 1 /* write mode, target inside the buffered block */
+#define SEEK_DOM_W_FULL    2 /* write mode, other block, a whole BITBUF_SIZE of data from its start */
+#define SEEK_DOM_W_TAIL    3 /* write mode, other block, fewer than BITBUF_SIZE bytes of data from its start */
+#define SEEK_DOM_R         4 /* read mode */
+#define SEEK_DOM_BADARGS_W 5 /* rejected arguments, write mode */
+#define SEEK_DOM_BADARGS_R 6 /* rejected arguments, read mode */
+#ifndef SEEK_DOM
+#define SEEK_DOM 0
+#endif
+#define SEEK_PRE_W(r) BR_W_FULL(r)
+#define SEEK_PRE_R(r) (BR_R(r) && G.len == (r)->max_offset && RCOH(r))
+#if SEEK_DOM == SEEK_DOM_R || SEEK_DOM == SEEK_DOM_BADARGS_R
+#define SEEK_PRE(r) SEEK_PRE_R(r)
+#define SEEK_LOGICAL(r) R_LOGICAL(r)
+#elif SEEK_DOM != 0
+#define SEEK_PRE(r) SEEK_PRE_W(r)
+#define SEEK_LOGICAL(r) W_LOGICAL(r)
+#else
+#define SEEK_PRE(r) (SEEK_PRE_W(r) || SEEK_PRE_R(r))
+#define SEEK_LOGICAL(r) ((r)->mode == 'w' ? W_LOGICAL(r) : R_LOGICAL(r))
+#endif
+
 /* Hbitseek(byte, bit) sets the absolute position 8*byte + bit in both modes, keeps the mode, keeps the
    logical content of every element byte, and leaves the record in the state the next Hbitwrite/Hbitread needs */
 int Hbitseek(int32 bitid, int32 byte_offset, int bit_offset)
     __CPROVER_requires(GC.rec != NULL && bitid == GC.reg_id && BR_COMMON(GC.rec))
-    __CPROVER_requires(BR_W_FULL(GC.rec) || (BR_R(GC.rec) && G.len == GC.rec->max_offset && RCOH(GC.rec)))
-    __CPROVER_requires(GC.b >= 0 && GC.bexp == (GC.rec->mode == 'w' ? W_LOGICAL(GC.rec) : R_LOGICAL(GC.rec)))
+    __CPROVER_requires(SEEK_PRE(GC.rec))
+    __CPROVER_requires(GC.b >= 0 && GC.bexp == SEEK_LOGICAL(GC.rec))
     __CPROVER_assigns(BSW_FRAME)
     __CPROVER_ensures(__CPROVER_return_value == SUCCEED || __CPROVER_return_value == FAIL)
     __CPROVER_ensures(SEEK_BADARGS(byte_offset, bit_offset, __CPROVER_old(GC.rec->max_offset)) ==> __CPROVER_return_value == FAIL)
@@ -233,7 +269,7 @@ int Hbitseek(int32 bitid, int32 byte_offset, int bit_offset)
                                                  : __CPROVER_old(GC.rec->max_offset)))
     /* every element byte keeps its logical value (pending bits merged, buffer refilled from the right byte) */
     __CPROVER_ensures((__CPROVER_return_value == SUCCEED && GC.b < GC.rec->max_offset) ==>
-                      GC.bexp == (GC.rec->mode == 'w' ? W_LOGICAL(GC.rec) : R_LOGICAL(GC.rec)));
+                      GC.bexp == SEEK_LOGICAL(GC.rec));
 
 /* write -> read at bit position P: same absolute position, everything written is on disk and visible */
 static int HIwrite2read(bitrec_t *bitfile_rec)
@@ -310,10 +346,10 @@ mk_rec(void)
     H4V_ASSUME(g_bdisk_0 <= 255 && g_b_0 >= 0);
 
     bitrec_t *r   = malloc(sizeof(bitrec_t));
-    uint8    *buf = malloc(BSW_BUF);
+    uint8    *buf = malloc(BSW_ALLOC);
     H4V_ASSUME(r != NULL && buf != NULL);
 #ifdef H4V_NATIVE
-    memset(buf, 0, BSW_BUF);
+    memset(buf, 0, BSW_ALLOC);
 #endif
     GC.rec = r;
     GC.buf = buf;
@@ -348,25 +384,19 @@ mk_rec(void)
     H4V_ND(uint8, b_at_p);
     H4V_ND(uint8, b_before_p);
     H4V_ND(uint8, b_ghost);
-    if (r_bp < BSW_BUF)
+#if BSW_ALLOC < BSW_BUF
+    /* bounded stand-in: pointer and ghost byte within the allocated part, one byte of slack for the flush's bytep++ */
+    H4V_ASSUME(r_bp < BSW_ALLOC - 1 && (GC.b < r_block_offset || GC.b - r_block_offset < BSW_ALLOC || GC.b - r_block_offset >= BSW_BUF));
+#endif
+    if (r_bp < BSW_ALLOC)
         buf[r_bp] = b_at_p;
-    if (r_bp >= 1)
+    if (r_bp >= 1 && r_bp - 1 < BSW_ALLOC)
         buf[r_bp - 1] = b_before_p;
-    if (GC.b >= r_block_offset && GC.b - r_block_offset < BSW_BUF && GC.b - r_block_offset != r_bp &&
+    if (GC.b >= r_block_offset && GC.b - r_block_offset < BSW_ALLOC && GC.b - r_block_offset != r_bp &&
         GC.b - r_block_offset != r_bp - 1)
         buf[GC.b - r_block_offset] = b_ghost;
     return r;
 }
-
-/* sub-domains of Hbitseek (their union is the whole domain of the contract) */
-#define SEEK_DOM_W_INBLOCK 1 /* write mode, target inside the buffered block */
-#define SEEK_DOM_W_FULL    2 /* write mode, other block, a whole BITBUF_SIZE of data from its start */
-#define SEEK_DOM_W_TAIL    3 /* write mode, other block, fewer than BITBUF_SIZE bytes of data from its start */
-#define SEEK_DOM_R         4 /* read mode */
-#define SEEK_DOM_BADARGS   5 /* rejected arguments */
-#ifndef SEEK_DOM
-#define SEEK_DOM 0
-#endif
 
 void
 h_bitseek(void)
@@ -376,7 +406,7 @@ h_bitseek(void)
     H4V_ND(int, bit_offset);
     int   bad    = SEEK_BADARGS(byte_offset, bit_offset, r->max_offset);
     int   inblk  = !(byte_offset < r->block_offset || byte_offset >= r->block_offset + BSW_BUF);
-    int32 target = (byte_offset / BSW_BUF) * BSW_BUF;
+    int32 target = bad ? 0 : (byte_offset / BSW_BUF) * BSW_BUF;
 #if SEEK_DOM == SEEK_DOM_W_INBLOCK
     H4V_ASSUME(r->mode == 'w' && !bad && inblk);
 #elif SEEK_DOM == SEEK_DOM_W_FULL
@@ -385,15 +415,17 @@ h_bitseek(void)
     H4V_ASSUME(r->mode == 'w' && !bad && !inblk && r->max_offset - target < BSW_BUF);
 #elif SEEK_DOM == SEEK_DOM_R
     H4V_ASSUME(r->mode == 'r' && !bad);
-#elif SEEK_DOM == SEEK_DOM_BADARGS
-    H4V_ASSUME(bad);
+#elif SEEK_DOM == SEEK_DOM_BADARGS_W
+    H4V_ASSUME(r->mode == 'w' && bad);
+#elif SEEK_DOM == SEEK_DOM_BADARGS_R
+    H4V_ASSUME(r->mode == 'r' && bad);
 #endif
     int   mode0 = r->mode;
     int   cnt0  = r->count;
     int32 blk0  = r->block_offset;
-    GC.bexp     = (r->mode == 'w') ? W_LOGICAL(r) : R_LOGICAL(r);
+    GC.bexp     = SEEK_LOGICAL(r);
     int s       = Hbitseek(GC.reg_id, byte_offset, bit_offset);
-#if SEEK_DOM != SEEK_DOM_BADARGS
+#if SEEK_DOM != SEEK_DOM_BADARGS_W && SEEK_DOM != SEEK_DOM_BADARGS_R
     H4V_COVER(s == SUCCEED && bit_offset > 0, "seek to an unaligned position");
     H4V_COVER(s == SUCCEED && bit_offset == 0, "seek to an aligned position");
     H4V_COVER(s == FAIL, "seek I/O failure");
